@@ -21,6 +21,8 @@ type vFaultyReader struct {
 	calls     int
 	failCall  int
 	failAfter int
+	once      bool // the fault happens once; later reads succeed again (a transient error)
+	fired     bool
 }
 
 var errVInjectedRead = errors.New("verif: injected read error")
@@ -28,10 +30,12 @@ var errVInjectedWrite = errors.New("verif: injected write error")
 
 func (r *vFaultyReader) Read(p []byte) (int, error) {
 	r.calls++
-	if r.failCall > 0 && r.calls >= r.failCall {
+	if r.failCall > 0 && r.calls >= r.failCall && !(r.once && r.fired) {
+		r.fired = true
 		return 0, errVInjectedRead
 	}
-	if r.failAfter >= 0 && r.pos >= r.failAfter {
+	if r.failAfter >= 0 && r.pos >= r.failAfter && !(r.once && r.fired) {
+		r.fired = true
 		return 0, errVInjectedRead
 	}
 	if r.pos >= len(r.data) {
@@ -44,7 +48,7 @@ func (r *vFaultyReader) Read(p []byte) (int, error) {
 	if r.pos+n > len(r.data) {
 		n = len(r.data) - r.pos
 	}
-	if r.failAfter >= 0 && r.pos+n > r.failAfter {
+	if r.failAfter >= 0 && r.pos+n > r.failAfter && !(r.once && r.fired) {
 		n = r.failAfter - r.pos
 	}
 	copy(p, r.data[r.pos:r.pos+n])
@@ -98,6 +102,7 @@ func init() {
 			Chunk     int    `json:"chunk"`     // max bytes per Read (0 = unlimited)
 			RFailCall int    `json:"rfail_call"`
 			RFailAt   int    `json:"rfail_after"` // -1 = never
+			ROnce     bool   `json:"ronce"`
 			WFailCall int    `json:"wfail_call"`
 			WShort    bool   `json:"wshort"`
 			WOnce     bool   `json:"wonce"`
@@ -113,7 +118,7 @@ func init() {
 		if err != nil {
 			return nil, err
 		}
-		rd := &vFaultyReader{data: data, chunk: a.Chunk, failCall: a.RFailCall, failAfter: a.RFailAt}
+		rd := &vFaultyReader{data: data, chunk: a.Chunk, failCall: a.RFailCall, failAfter: a.RFailAt, once: a.ROnce}
 		wr := &vFaultyWriter{failCall: a.WFailCall, short: a.WShort, once: a.WOnce}
 		var bar *progressbar.ProgressBar
 		if a.Bar {
